@@ -52,7 +52,7 @@ def run(ctx):
     okc, _, _ = ctx.validate_trace("Trace_Seeds", ctx.write_ndjson("fp_c.ndjson", [g]))
     ctx.selftest("trace: two chains with the same generator fingerprint", not okc)
     ctx.cov["rule"] = ("Seeds.tla (DistinctStreams for all seeds mod W, seeded and unseeded construction; cloning one proposal into every chain is the "
-                       "negative control); fingerprints of MH (library and user-defined seedable proposal), HMC and NUTS samplers with 2..64 chains, "
+                       "negative control); fingerprints of MH (library and user-defined seedable proposal), HMC and NUTS samplers with 2..64 chains, HMC batches of 16k..120k momentum components (dim up to 40000), "
                        "unseeded and seeds {0, 42, u64::MAX-1, u64::MAX, random}; non-trivial = configurations with >= 3 chains")
     ctx.cov["exhaustive"] = False
 
